@@ -59,8 +59,13 @@ claim("C12",
       "A pending unbound pod with a live BindRequest is Binding on the request's SelectedNode with the request's GPU groups and received type (request first); Binding is an active-used, allocated status; a request is hidden from the snapshot exactly when absent or terminally failed and exactly deleted-node and terminally failed requests are deleted; every change the binder makes to Status.Phase or Status.FailedAttempts reaches Status().Patch; a retry is scheduled iff limit set ∧ attempts < limit ∧ failure, and IsFailed ⇔ Failed ∧ (no limit ∨ attempts ≥ limit). Cross-process interleavings are not decided.",
       NOTE)
 
+claim("C17",
+      "lock-held-on-entry analysis (functions performing pod create/delete/patch closed under callers until an acquire that dominates the call, with the locked group passed down), acquire/release pairing on all exits, effect extraction of the reference count, call-graph reachability of the per-group sync from the event handlers / bind / rollback / start-up, guard dominance inside the sync, provenance of the patched object",
+      "Every function of the reservation service that creates, deletes or labels pods runs only with the per-group mutex held for that group (one reviewed exception); acquire and release are paired on every exit and the group mutex changes its reference count exactly once per handed-out mutex; pod delete/completion handlers, the BindRequest delete handler, bind, rollback and start-up reach the per-group sync; the sync deletes a reservation pod only without live consumers, running consumers only without a reservation; the consumer's label patch goes through the caller's pod object. The iff-invariant over interleavings and crashes is not decided.",
+      NOTE)
+
 NA = {
     "C15": "quantifies over infinite executions of a closed system (lasso freedom); no static shape of the code settles it. Its three guards (strict saturation comparison with multiplier >= 1, strictly-lower priority for preempt, consolidation only when all victims are re-placed) are decided as clauses of C07 and C06.",
 }
-for _p in ["C04","C05","C09","C16","C17","C18","C19","C20"]:
+for _p in ["C04","C05","C09","C16","C18","C19","C20"]:
     NA.setdefault(_p, "check under construction in this session (see DESIGN.md §4 for the planned static obligations); not claimed until the check exists")
